@@ -69,6 +69,10 @@ type Solver struct {
 	logf     io.Writer
 	useHard  bool
 	inst     int64
+	pipes    []*os.File
+	lastTO   time.Duration
+	cpu      int
+	stack    []*Term // assertion stack mirrored in the solver process (one push level each)
 }
 
 var solverInst int64
@@ -81,38 +85,68 @@ type cacheEnt struct {
 func NewSolver(ts *TermStore, workdir string) *Solver {
 	s := &Solver{ts: ts, cache: map[string]cacheEnt{}, timeout: 20 * time.Second, hardTO: 60 * time.Second, workdir: workdir, useHard: true}
 	s.inst = atomic.AddInt64(&solverInst, 1)
+	s.cpu = -1
 	s.stats.TimeS = map[string]float64{}
 	s.stats.BackendWins = map[string]int{}
 	return s
 }
 
 func (s *Solver) start() error {
-	s.cmd = exec.Command("z3", "-in")
-	var err error
-	s.in, err = s.cmd.StdinPipe()
+	if s.cpu >= 0 {
+		s.cmd = exec.Command("taskset", "-c", strconv.Itoa(s.cpu), incrementalSolver, "-in")
+	} else {
+		s.cmd = exec.Command(incrementalSolver, "-in")
+	}
+	if p := os.Getenv("VERIF_SMT_LOG"); p != "" && s.logf == nil {
+		f, _ := os.Create(fmt.Sprintf("%s.%d", p, s.inst))
+		s.logf = f
+		fmt.Fprintf(f, "(set-option :global-declarations true)\n")
+	}
+	// plain blocking pipes: Go's netpoller adds ~5 ms per round trip on exec pipes
+	ir, iw, err := os.Pipe()
 	if err != nil {
 		return err
 	}
-	o, err := s.cmd.StdoutPipe()
+	or, ow, err := os.Pipe()
 	if err != nil {
 		return err
 	}
+	or.Fd() // switches the descriptor to blocking mode
+	iw.Fd()
+	s.cmd.Stdin = ir
+	s.cmd.Stdout = ow
 	s.cmd.Stderr = os.Stderr
-	s.out = bufio.NewReaderSize(o, 1<<20)
+	s.in = iw
+	s.out = bufio.NewReaderSize(or, 1<<16)
+	s.pipes = []*os.File{ir, ow, or}
 	s.defined = map[int]bool{}
 	s.declared = map[string]bool{}
 	if err := s.cmd.Start(); err != nil {
 		return err
 	}
-	fmt.Fprintf(s.in, "(set-option :print-success false)\n(set-option :timeout %d)\n", s.timeout.Milliseconds())
+	ir.Close()
+	ow.Close()
+	fmt.Fprintf(s.in, "(set-option :print-success false)\n(set-option :global-declarations true)\n(set-option :timeout %d)\n", s.timeout.Milliseconds())
+	s.stack = nil
+	s.lastTO = s.timeout
 	return nil
 }
 
 func (s *Solver) Close() {
 	if s.cmd != nil {
+		io.WriteString(s.in, "(exit)\n")
 		s.in.Close()
-		s.cmd.Process.Kill()
-		s.cmd.Wait()
+		done := make(chan struct{})
+		go func() { s.cmd.Wait(); close(done) }()
+		select {
+		case <-done:
+		case <-time.After(2 * time.Second):
+			s.cmd.Process.Kill()
+			<-done
+		}
+		for _, p := range s.pipes {
+			p.Close()
+		}
 		s.cmd = nil
 	}
 }
@@ -246,9 +280,13 @@ func (s *Solver) Check(asserts []*Term, wantModel bool) (SatResult, map[string]u
 
 func (s *Solver) checkIncremental(as []*Term, wantModel bool) (SatResult, map[string]uint64) {
 	div, fp := s.ts.HasHardArith(as)
-	if (div || fp) && s.useHard {
-		// arithmetic kernels stall the bit-blaster; go to the portfolio directly
+	if fp && s.useHard {
+		// FP kernels stall the incremental bit-blaster; go to the portfolio directly
 		return Unknown, nil
+	}
+	to := s.timeout
+	if div && s.useHard {
+		to = 3 * time.Second // division by non-power-of-two constants: quick try, then portfolio
 	}
 	if s.cmd == nil {
 		if err := s.start(); err != nil {
@@ -258,15 +296,24 @@ func (s *Solver) checkIncremental(as []*Term, wantModel bool) (SatResult, map[st
 		}
 	}
 	t0 := time.Now()
-	defer func() { s.stats.TimeS["z3"] += time.Since(t0).Seconds() }()
+	defer func() { s.stats.TimeS[incrementalSolver+"-incremental"] += time.Since(t0).Seconds() }()
 	var sb strings.Builder
-	names := make([]string, len(as))
-	for i, a := range as {
-		names[i] = s.define(a, &sb)
+	common := 0
+	for common < len(s.stack) && common < len(as) && s.stack[common] == as[common] {
+		common++
 	}
-	sb.WriteString("(push)\n")
-	for _, n := range names {
-		sb.WriteString("(assert " + n + ")\n")
+	if n := len(s.stack) - common; n > 0 {
+		fmt.Fprintf(&sb, "(pop %d)\n", n)
+	}
+	s.stack = s.stack[:common]
+	if to != s.lastTO {
+		fmt.Fprintf(&sb, "(set-option :timeout %d)\n", to.Milliseconds())
+		s.lastTO = to
+	}
+	for _, a := range as[common:] {
+		n := s.define(a, &sb)
+		sb.WriteString("(push)\n(assert " + n + ")\n")
+		s.stack = append(s.stack, a)
 	}
 	sb.WriteString("(check-sat)\n(echo \"@@cs\")\n")
 	if s.logf != nil {
@@ -277,7 +324,7 @@ func (s *Solver) checkIncremental(as []*Term, wantModel bool) (SatResult, map[st
 		s.stats.Errors++
 		return Unknown, nil
 	}
-	lines, err := s.readUntil("@@cs", s.timeout+10*time.Second)
+	lines, err := s.readUntil("@@cs", to+10*time.Second)
 	if err != nil {
 		s.restart()
 		s.stats.Errors++
@@ -315,6 +362,9 @@ func (s *Solver) checkIncremental(as []*Term, wantModel bool) (SatResult, map[st
 				q.WriteString(smtName(v.name) + " ")
 			}
 			q.WriteString("))\n(echo \"@@gv\")\n")
+			if s.logf != nil {
+				io.WriteString(s.logf, q.String())
+			}
 			io.WriteString(s.in, q.String())
 			ml, err := s.readUntil("@@gv", 30*time.Second)
 			if err != nil {
@@ -325,37 +375,26 @@ func (s *Solver) checkIncremental(as []*Term, wantModel bool) (SatResult, map[st
 			model = parseModel(strings.Join(ml, "\n"))
 		}
 	}
-	io.WriteString(s.in, "(pop)\n")
 	return res, model
 }
 
 func (s *Solver) readUntil(marker string, to time.Duration) ([]string, error) {
-	type rr struct {
-		lines []string
-		err   error
-	}
-	ch := make(chan rr, 1)
-	go func() {
-		var lines []string
-		for {
-			l, err := s.out.ReadString('\n')
-			if err != nil {
-				ch <- rr{lines, err}
-				return
-			}
-			l = strings.TrimRight(l, "\n")
-			if strings.Trim(l, "\"") == marker {
-				ch <- rr{lines, nil}
-				return
-			}
-			lines = append(lines, l)
+	// synchronous read; a watchdog timer kills the solver process if it overruns, which makes
+	// the read fail and triggers a restart
+	proc := s.cmd.Process
+	timer := time.AfterFunc(to, func() { proc.Kill() })
+	defer timer.Stop()
+	var lines []string
+	for {
+		l, err := s.out.ReadString('\n')
+		if err != nil {
+			return lines, err
 		}
-	}()
-	select {
-	case r := <-ch:
-		return r.lines, r.err
-	case <-time.After(to):
-		return nil, fmt.Errorf("solver read timeout")
+		l = strings.TrimRight(l, "\n")
+		if strings.Trim(l, "\"") == marker {
+			return lines, nil
+		}
+		lines = append(lines, l)
 	}
 }
 
@@ -577,3 +616,15 @@ func parseModel(txt string) map[string]uint64 {
 	}
 	return m
 }
+
+// incrementalSolver is the binary used for the persistent incremental process. z3 5.1 (z3-new)
+// handles the push/pop stream about five times faster than z3 4.8.12 on this workload.
+var incrementalSolver = func() string {
+	if p := os.Getenv("VERIF_INCR_SOLVER"); p != "" {
+		return p
+	}
+	if _, err := exec.LookPath("z3-new"); err == nil {
+		return "z3-new"
+	}
+	return "z3"
+}()
